@@ -194,12 +194,18 @@ func (n *Nodis) LRem(key string, data []byte, count int64) int64 {
 func (n *Nodis) LSet(key string, index int64, data []byte) bool {
 	var v bool
 	_ = n.exec(func(tx *Tx) error {
-		meta := tx.writeKey(key, n.newList)
+		meta := tx.writeKey(key, nil)
+		if !meta.isOk() {
+			return nil
+		}
+		v = meta.value.(*list.LinkedList).LSet(index, data)
+		if !v {
+			return nil
+		}
 		n.signalModifiedKey(key, meta)
 		n.notify(func() []patch.Op {
 			return []patch.Op{{Type: patch.OpTypeLSet, Data: &patch.OpLSet{Key: key, Value: data, Index: index}}}
 		})
-		v = meta.value.(*list.LinkedList).LSet(index, data)
 		return nil
 	})
 	return v
@@ -212,6 +218,9 @@ func (n *Nodis) LTrim(key string, start, stop int64) {
 			return nil
 		}
 		meta.value.(*list.LinkedList).LTrim(start, stop)
+		if meta.value.(*list.LinkedList).LLen() == 0 {
+			tx.delKey(key)
+		}
 		n.signalModifiedKey(key, meta)
 		n.notify(func() []patch.Op {
 			return []patch.Op{{Type: patch.OpTypeLTrim, Data: &patch.OpLTrim{Key: key, Start: start, Stop: stop}}}
